@@ -198,6 +198,13 @@ def check_array(rep, tier):
                     why = "the copy does not start at the beginning of the buffer"
                 if why is None and not (srcp[0] == 'ptr' and srcp[1][0] == 'mem' and srcp[1][1][0] == 'ld' and srcp[1][1][1] == ('arg', 1) and srcp[1][1][2] == 8 and srcp[2] == 0):
                     why = "the copy reads from %s, expected the source's buffer" % ir.show(srcp)[:80]
+                if why is None and not src_size(ncnt) and ncnt is not None:
+                    # on a path that has established target.m_size == source.m_size the two are interchangeable
+                    eqs = [l for l in lits if l[0] == 'cmp' and l[1] == 'eq' and {(x[1], x[2]) for x in (l[2], l[3]) if x[0] == 'ld'} == {(('arg', 0), 0), (('arg', 1), 0)}]
+                    if eqs:
+                        from .hilbert_curve import subst
+                        tgt, srcm = (eqs[0][2], eqs[0][3]) if eqs[0][2][1] == ('arg', 0) else (eqs[0][3], eqs[0][2])
+                        ncnt = subst(ncnt, {tgt: srcm})
                 if why is None and not src_size(ncnt):
                     why = "the copy transfers %s bytes, expected source.m_size * %d" % (ir.show(n)[:80], stride)
                 if why:
